@@ -35,6 +35,19 @@ def _exh_configs():
 
 def _miri_classify(ck, r, what):
     err = r["err"]
+    if "Data race detected" in err:
+        # two-thread mode: the kernel thread is ordered with the application through the ring words
+        # only, so unordered plain accesses mean a missing Release/Acquire on one of them
+        m = re.search(r"error: Undefined Behavior: (Data race detected[^\n]*)", err)
+        fns = re.findall(r"\d+: (?:mt::)?(kernel_reads_sqe|kernel_writes_cqe|app_fills_sqe|app_copies_cqe_tail|[\w:]*get_next_cqe[\w:{}#]*|[\w:]*app_side)", err)
+        obj = "unknown"
+        if any("sqe" in f for f in fns):
+            obj = "submission queue entry (application's plain write vs kernel thread's plain read)"
+        elif fns:
+            obj = "completion queue entry (kernel thread's plain write vs application's plain read)"
+        ck.violation("C17/miri/data-race", {"error": m.group(1) if m else "", "accessed_object": obj, "frames": fns[:4],
+                                            "stderr": err[max(0, err.find("error:")):][:2500], "context": what})
+        return False
     if "error: Undefined Behavior" in err or "error: unsupported operation" in err or "error: memory leaked" in err:
         m = re.search(r"error: ([^\n]*)", err)
         frames = re.findall(r"(?:-->|at) (/[^\s:]+):(\d+)", err)
@@ -93,6 +106,11 @@ def run(ck, replay=None):
         for i in range(2 if quick else 8):
             jobs.append(("%s real-kernel #%d" % (prof, i),
                          dict(argv=[exe, "real", str(ck.seed * 53 + i), str(400 if quick else 5000)], timeout=900)))
+    # two-thread mode natively (sequence / content checks with real threads; the race oracle is Miri, below)
+    for prof, exe in (("debug", dbg), ("release", rel)):
+        for kind in (0, 1, 2):
+            jobs.append(("%s two-thread kind %d" % (prof, kind),
+                         dict(argv=[exe, "mt", str(ck.seed * 11 + kind), str(300 if quick else 5000), str(kind)], timeout=900)))
     # random long interleavings, systematic over (size, cq size, sq start, cq start)
     nshard = 16
     runs = 40_000 if quick else 250_000
@@ -122,7 +140,25 @@ def run(ck, replay=None):
     # a zero-run invocation first: builds the Miri target once instead of 16 shards queueing on the lock
     argv, env, cwd = vlib.miri_cmd(CRATE, "h_ring-miri", "h_ring", ["rand", 0, 0, 0, 1], [])
     vlib.run_one(argv, env=env, cwd=cwd, timeout=1200)
+    # two-thread Miri runs: kind 0 = SQPOLL ring, kernel thread ordered through the SQ tail only (decides the
+    # tail's Release); 1 = non-SQPOLL control with io_uring_enter modelled as a Release/Acquire pair;
+    # 2 = SQPOLL long runs with CQ slot reuse gated on a "copied" counter (documented hazard kept out)
+    mt_what = []
+    nseed = 2 if quick else 8
+    for kind, rates, rings in ((0, (0.01, 0.1, 0.5), 6 if quick else 24), (1, (0.01, 0.1, 0.5), 4 if quick else 12), (2, (0.01, 0.1, 0.5), 4 if quick else 12)):
+        for rate in rates:
+            for sd in range(nseed if kind == 0 else max(1, nseed // 2)):
+                mseed = (ck.seed + 7 * sd + kind) % 100000
+                argv, env, cwd = vlib.miri_cmd(CRATE, "h_ring-miri", "h_ring", ["mt", ck.seed * 3 + sd, rings, kind],
+                                               ["-Zmiri-preemption-rate=%s" % rate, "-Zmiri-seed=%d" % mseed])
+                mj.append(dict(argv=argv, env=env, cwd=cwd, timeout=2400))
+                mt_what.append("miri two-thread kind=%d preemption-rate=%s miri-seed=%d prog-seed=%d" % (kind, rate, mseed, ck.seed * 3 + sd))
     mres = vlib.run_parallel(mj)
+    mt_res = mres[mshards:]
+    mres = mres[:mshards]
+    for what, r in zip(mt_what, mt_res):
+        if _miri_classify(ck, r, what) and ck.consume_result(r, what):
+            ck.count("miri_two_thread_runs_completed")
     vlib.log("[c17] miri %.1fs (slowest shard %.1fs)" % (time.time() - t0, max(r["wall"] for r in mres)))
     for i, r in enumerate(mres):
         what = "miri rand shard %d" % i
@@ -136,13 +172,20 @@ def run(ck, replay=None):
         "followed by a drain, ring sizes 1 and 2 (cq = 2x), head start in {0, 2^31-1, u32::MAX-k for k<=2*entries} "
         "independently for SQ and CQ, prefilled (0,0),(full,0),(0,full),(1,1); %d configurations x debug/release"
         % ("7" if quick else "10 (empty start) / 8 (prefilled start)", len(cfgs)))
-    ck.assume("the kernel side is simulated in the same thread: interleaving is at call granularity, as the property fixes it; "
-              "memory-ordering effects between real threads are not observable here")
+    ck.assume("simulator: the kernel side runs in the same thread, interleaving at call granularity as the property fixes it. "
+              "Memory ordering is judged separately by the two-thread Miri runs: a kernel thread ordered with the application "
+              "through the ring words only (Acquire tail / plain SQE reads / Release head; plain CQE writes / Release tail); "
+              "Miri's data-race detector is the oracle, for the seeds and preemption rates run")
+    ck.assume("two-thread runs: a CQE is copied out before the next get_next_cqe call, and the kernel thread never reuses a CQ slot "
+              "before the application published a 'copied' counter (SQPOLL-long) or re-entered the modelled io_uring_enter (control); "
+              "the documented hazard -- get_next_cqe advances the head before the caller reads through the returned reference -- "
+              "is thereby kept out of the verdict (DESIGN 5a). In the deciding SQPOLL runs (kind 0) at most cq_entries operations "
+              "are issued so that the SQ tail is the only application->kernel edge")
     ck.assume("real-kernel mode: io_uring must be available to the process; close of an unopened descriptor completes inline with -EBADF, "
               "in submission order; consumption = the count io_uring_enter reports as submitted")
     ck.assume("sq_array is initialised to the identity as rusl::io_uring::setup_io_uring does; ring sizes are powers of two (1,2,4,8; cq = n or 2n)")
     ck.assume("observations that are not refuting events are only counted: None from get_next_sqe_slot with free slots, "
-              "flush return value != pending, get_next_cqe releasing the slot before the caller reads through the reference")
+              "entries consumed before flush, get_next_cqe releasing the slot before the caller reads through the reference")
     ck.assume("debug build has overflow checks on, release off; a panic inside a wrapper call is a violation")
     return ("scripted interleavings of application calls {get_next_sqe_slot+fill, flush_submission_queue, get_next_cqe+copy} and "
             "simulated-kernel steps {consume k, post k} on a ring built over harness memory; random runs cycle through every "
